@@ -231,7 +231,8 @@ def r_verdict_space(rep, facts, rid='C09/R11', length=3, alphabet=8):
                  'does, and an accepted one must build the tree the decoder gives', floor=len(docs) // 2)
     _FACTS = facts
     try:
-        with multiprocessing.get_context('fork').Pool(min(16, multiprocessing.cpu_count())) as pool:
+        import os as _os
+        with multiprocessing.get_context('fork').Pool(2 if _os.environ.get('VERIF_FAST') else min(16, multiprocessing.cpu_count())) as pool:
             res = pool.map(_verdict_of, docs, chunksize=16)
     finally:
         _FACTS = None
